@@ -757,6 +757,12 @@ def oracle_c08(rec):
     pts = [(i, e['gp']) for i, e in enumerate(rec['events']) if e['t'] == 'dump' and e.get('gp')]
     if rec.get('final_gp') is not None:
         pts.append(('final', rec['final_gp']))
+    # freshly grown trees (every top-level call of TreeSpace.grow during the task) are no deeper than the max_depth asked for
+    for mn, mx, depth, nn in rec.get('grown') or []:
+        stats['grown'] = stats.get('grown', 0) + 1
+        if depth > mx:
+            issues.append(dict(what='grown-too-deep', min_depth=mn, max_depth=mx, depth=depth, n_nodes=nn))
+            break
     for i, g in pts:
         stats['forests'] += 1
         stats['trees'] += g['n_trees'] + 1
